@@ -25,11 +25,12 @@ LOGIC_TEXT = {
 
 
 class Rule:
-    __slots__ = ("pattern", "children", "glob", "ordered", "rewrite", "logic", "ignore", "uid", "nkeys", "written", "icase")
+    __slots__ = ("pattern", "children", "glob", "ordered", "rewrite", "logic", "ignore", "uid", "nkeys", "written", "icase", "mandatory")
     _n = 0
 
-    def __init__(self, pattern, children=(), glob=False, ordered=False, rewrite=False, logic=None, ignore=False, nkeys=None, icase=False):
+    def __init__(self, pattern, children=(), glob=False, ordered=False, rewrite=False, logic=None, ignore=False, nkeys=None, icase=False, mandatory=False):
         self.pattern = pattern
+        self.mandatory = mandatory  # universe only: every configuration holds this rule's rows (no transition adds or removes them)
         self.icase = icase          # %ignore_case: rows of this rule are matched and compared without regard to letter case
         self.children = list(children)
         self.glob = glob
@@ -61,7 +62,7 @@ class Rule:
     def flags(self):
         ordered, rewrite, logic = self.written
         return [f for f, on in (("global", self.glob), ("ordered", ordered), ("rewrite", rewrite),
-                                (logic, logic), ("ignore", self.ignore), ("icase", self.icase)) if on]
+                                (logic, logic), ("ignore", self.ignore), ("icase", self.icase), ("mandatory", self.mandatory)) if on]
 
     def to_json(self):
         return {"p": self.pattern, "f": self.flags(), "c": [c.to_json() for c in self.children], "k": self.nkeys}
@@ -71,7 +72,7 @@ class Rule:
         f = set(d.get("f", []))
         logic = next((x for x in ("undo_redo", "permanent", "ignore_changes") if x in f), None)
         return Rule(d["p"], [Rule.from_json(c) for c in d.get("c", [])], glob="global" in f, ordered="ordered" in f,
-                    rewrite="rewrite" in f, logic=logic, ignore="ignore" in f, nkeys=d.get("k"), icase="icase" in f)
+                    rewrite="rewrite" in f, logic=logic, ignore="ignore" in f, nkeys=d.get("k"), icase="icase" in f, mandatory="mandatory" in f)
 
 
 def text(rules, indent=0):
@@ -202,7 +203,7 @@ def universe(level: Level, nkeys=2, nvalues=2, cap=None, _depth=0, child_nkeys=1
                        if (g[2].all_rules() and nest_ok and _depth < 4) else [[]])
                 for ch in sub:
                     opts.append([row, ch])
-            per_key.append(opts)
+            per_key.append(opts[1:] if (r.mandatory and len(opts) > 1) else opts)
         alts = []
         for combo in itertools.product(*per_key):
             chosen = [c for c in combo if c is not None]
